@@ -176,7 +176,9 @@ func canBeNumber(q query) bool {
 func (b *builder) processFilter(root *filterNode, flags flag, props *builderProp) (query, error) {
 	first := (flags & flagsEnum.Filter) == 0
 
-	qyInput, err := b.processNode(root.Input, (flags | flagsEnum.Filter), props)
+	// the "smart descendant" shortcut (only the top-most matches of the inner descendant step are
+	// needed) is unsound across a predicate: a nested match may pass a filter its ancestor fails.
+	qyInput, err := b.processNode(root.Input, (flags|flagsEnum.Filter)&^flagsEnum.SmartDesc, props)
 	if err != nil {
 		return nil, err
 	}
